@@ -276,6 +276,13 @@ Proof.
   cbn [res_ok items_ok]. rewrite item_ok_sv_of by (assumption || reflexivity). reflexivity.
 Qed.
 
+Lemma master_op_14 c : c_op c = 14 -> case_okb c = true -> prop_case c (run_case c) = true.
+Proof.
+  open_case c Hop Hok Hv Hk Ha.
+  destruct (ok2 c Hv Ha) as (a & b & _ & Hga & Hgb & -> & -> & _ & ->). cbn [bind]. cbv beta iota.
+  cbn [res_ok items_ok]. rewrite item_ok_sv_of by (assumption || reflexivity). reflexivity.
+Qed.
+
 (* ------------------------------------------------------------------ observers *)
 
 (* opening for an operation on one vector operand (args_okb = nvals c 1 && rest) *)
@@ -431,7 +438,7 @@ Qed.
 (* ------------------------------------------------------------------ assembly *)
 
 Definition ops_A : list N :=
-  [1;2;3;4;5;6;7;8;9;10;11;12;13;20;21;22;23;24;25;26;27;28;29;30;31;32;33;34;35;36;37].
+  [1;2;3;4;5;6;7;8;9;10;11;12;13;14;20;21;22;23;24;25;26;27;28;29;30;31;32;33;34;35;36;37].
 
 Theorem master_A c : In (c_op c) ops_A -> case_okb c = true -> prop_case c (run_case c) = true.
 Proof.
@@ -441,7 +448,7 @@ Proof.
            first [ apply master_op_1 | apply master_op_2 | apply master_op_3 | apply master_op_4
                  | apply master_op_5 | apply master_op_6 | apply master_op_7 | apply master_op_8
                  | apply master_op_9 | apply master_op_10 | apply master_op_11 | apply master_op_12
-                 | apply master_op_13 | apply master_op_20 | apply master_op_21 | apply master_op_22
+                 | apply master_op_13 | apply master_op_14 | apply master_op_20 | apply master_op_21 | apply master_op_22
                  | apply master_op_23 | apply master_op_24 | apply master_op_25 | apply master_op_26
                  | apply master_op_27 | apply master_op_28 | apply master_op_29 | apply master_op_30
                  | apply master_op_31 | apply master_op_32 | apply master_op_33 | apply master_op_34
